@@ -263,8 +263,23 @@ func hostileInputs(r *core.Rand, which int) []c01Item {
 			b[o], b[o+1] = byte(w>>8), byte(w)
 		}
 		items = append(items, c01Item{1 + int(gen.TWCC), b}, c01Item{0, b})
-	case 1: // 64 KiB of TWCC 1-bit vector chunks
-		n := 65532
+	case 1: // TWCC of 64 KiB and more: vector chunks, zero-length runs (the cursor walks to the very end), deltas to the end
+		n := r.Pick(65532, 65532, 65536, 65540, 65544, 131072, 262140, 262144)
+		if r.Bool() {
+			b := make([]byte, n)
+			switch r.Intn(3) {
+			case 1: // every chunk a run of length 0 of "received small": never satisfies the count
+				for i := 20; i+1 < n; i += 2 {
+					b[i], b[i+1] = 0x20, 0
+				}
+			case 2: // few chunks announcing 65535 large deltas, then delta octets to the end
+				copy(b[20:], []byte{0x5F, 0xFF, 0x5F, 0xFF, 0x5F, 0xFF, 0x5F, 0xFF, 0x5F, 0xFF, 0x5F, 0xFF, 0x5F, 0xFF, 0x5F, 0xFF, 0x5F, 0xFF})
+			}
+			hdr(b, 15, 205)
+			b[14], b[15] = 0xFF, 0xFF
+			items = append(items, c01Item{1 + int(gen.TWCC), b}, c01Item{0, b})
+			break
+		}
 		b := make([]byte, n)
 		for i := 20; i < n; i++ {
 			b[i] = 0xBF
